@@ -124,11 +124,15 @@ def flat(A):
 
 def represent(A, rep, base=float):
     """the same matrix values handed to bct in another in-memory representation"""
-    M = np.array(A, dtype=base)
+    M = np.array(A, dtype=base).reshape(len(A), len(A))      # (n = 0: a 0x0 matrix)
     if rep in (None, 'float64'):
         return M
     if rep == 'int64':
         return M.astype(np.int64)
+    if rep in ('uint8', 'int32'):
+        R = M.astype(getattr(np, rep))
+        assert np.array_equal(R.astype(float), M), 'representation must keep the values'
+        return R
     if rep == 'bool':
         return M != 0
     if rep == 'float32':
@@ -145,26 +149,39 @@ def represent(A, rep, base=float):
 
 
 def float_subset_cores(Af, ss):
-    """decimal weights: the documented semantics evaluated in floats exactly as a fresh re-sum does it —
-    a set S qualifies for s iff min over v in S of W[np.ix_(S,S)].sum(axis=0)[v] >= s; returns per s the union of the
-    qualifying sets (None if the union does not qualify), plus the sorted list of all attained float strengths"""
-    n = len(Af)
-    mins = [None] * (1 << n)
+    """decimal weights: the documented semantics "strength at least s inside the set", evaluated without NumPy reductions
+    (audit 3: the oracle must not itself be ndarray.sum).  For every node subset S the strength of v inside S is computed
+      (f) as a left-to-right sum of Python floats over the members of S in index order (IEEE doubles; what a fresh re-sum
+          of the zeroed matrix does, since adding the exact zeros of peeled rows changes nothing), and
+      (q) exactly, as a sum of Fractions of the same float weights.
+    Returns (cores by (f), cores by (q), attained (f)-strengths); a set qualifies for s iff its minimum strength >= s and
+    the core is the union of the qualifying sets (None if that union does not qualify).  Where (f) and (q) give different
+    cores the case is sensitive to one-ulp effects and the verdict rests on (f) alone (counted by the caller)."""
+    W = [[float(x) for x in row] for row in np.asarray(Af).tolist()]
+    Wq = [[Fr(x) for x in row] for row in W]
+    n = len(W)
+    minsf = [None] * (1 << n); minsq = [None] * (1 << n)
     attained = set()
     for S in range(1, 1 << n):
         mem = bits(S, n)
-        st_ = Af[np.ix_(mem, mem)].sum(axis=0)
-        mins[S] = float(st_.min())
-        attained.update(float(x) for x in st_)
-    out = {}
+        lo_f = None; lo_q = None
+        for v in mem:
+            acc = 0.0; accq = Fr(0)
+            for w in mem:
+                acc = acc + W[w][v]; accq += Wq[w][v]
+            attained.add(acc)
+            lo_f = acc if lo_f is None or acc < lo_f else lo_f
+            lo_q = accq if lo_q is None or accq < lo_q else lo_q
+        minsf[S] = lo_f; minsq[S] = lo_q
+    outf, outq = {}, {}
     for s_ in ss:
-        U = 0
-        for S in range(1, 1 << n):
-            if mins[S] >= s_:
-                U |= S
-        out[s_] = None if (U and mins[U] < s_) else U
-    return out, sorted(attained)
-
+        for mins, out, thr in ((minsf, outf, s_), (minsq, outq, Fr(s_))):
+            U = 0
+            for S in range(1, 1 << n):
+                if mins[S] >= thr:
+                    U |= S
+            out[s_] = None if (U and mins[U] < thr) else U
+    return outf, outq, sorted(attained)
 
 
 # ------------------------------------------------------------------ history / object-reuse probes (round 3)
@@ -307,7 +324,7 @@ def run_job(job):
             Ml = [[float(x) for x in row] for row in np.asarray(M)]
             order = [[int(x) for x in g] for g in order]
             level = [[float(x) for x in g] for g in level]
-            exp_line = 'M=%s kn=%d order=%s level=%s' % (ints(flat(Ml)), int(kn), groups(order), groups(level))
+            exp_line = 'M=%s kn=%d order=%s level=%s' % (ints(flat(Ml)) if n else '', int(kn), groups(order), groups(level))
             if all(float(x) == int(x) for g in level for x in g) and all(float(x) == int(x) for x in flat(Ml)):
                 out['lines'].append(('%s n=%d A=%s k=%d' % (func, n, ints(flat(A)), k), exp_line, func))
             else:
@@ -375,7 +392,7 @@ def run_job(job):
         # float subset-enumeration oracle only (the exact-rational Lean model cannot see one-ulp effects)
         func = 'score_wu'
         Af = np.array(A, dtype=float)
-        _, attained = float_subset_cores(Af, [])
+        _, _, attained = float_subset_cores(Af, [])
         ss = set()
         for v in attained:
             if v > 0:
@@ -384,8 +401,8 @@ def run_job(job):
         if job.get('max_s') and len(ss) > job['max_s']:
             rs_ = np.random.RandomState(job['max_s'] + len(ss))
             ss = [ss[i] for i in sorted(rs_.choice(len(ss), size=job['max_s'], replace=False).tolist())]
-        cores, _ = float_subset_cores(Af, ss)
-        full = Af.sum(axis=0)
+        cores, cores_exact, _ = float_subset_cores(Af, ss)
+        full = [sum(Fr(x) for x in col) for col in zip(*Af.tolist())]
         for s_ in ss:
             r = wcall(bct.score_wu, Af.copy(), s_)
             out['evals'] += 1
@@ -409,8 +426,17 @@ def run_job(job):
                 viol(func, 'restricted-matrix', M.tolist(), want.tolist(), s=repr(s_), weights='decimal')
             if sn != bin(C).count('1'):
                 viol(func, 'size', sn, bin(C).count('1'), s=repr(s_), weights='decimal')
+            if cores_exact[s_] != C:
+                out['dec_ulp'] = out.get('dec_ulp', 0) + 1        # exact-rational semantics would give another core: verdict rests on (f)
             mem = bits(C, n)
-            if mem and C != sum(1 << v for v in range(n) if full[v] > 0) and s_ in set(float(x) for x in Af[np.ix_(mem, mem)].sum(axis=0)):
+            Wl = Af.tolist()
+            tie = False
+            for v in mem:
+                acc = 0.0
+                for w in mem:
+                    acc = acc + Wl[w][v]
+                tie = tie or acc == s_
+            if mem and C != sum(1 << v for v in range(n) if full[v] > 0) and tie:
                 out['nontrivial'].append(digest(['score_wu-dec-tie', A, s_]))     # earlier peeling and an exact tie inside the core
                 out['dec_ties'] = out.get('dec_ties', 0) + 1
         return out
@@ -432,7 +458,7 @@ def run_job(job):
                 viol(func, 'raises', r[1], None, s=str(s)); continue
             M, sn = r[1]
             Mq = [[Fr(float(x)) for x in row] for row in np.asarray(M)]
-            out['lines'].append(('score_wu n=%d A=%s s=%s' % (n, ','.join(fr(x) for x in flat(Aq)), fr(s)),
+            out['lines'].append(('score_wu n=%d A=%s s=%s' % (n, ','.join(fr(x) for x in flat(Aq)) or '-', fr(s)),
                                  'M=%s kn=%d' % (','.join(fr(x) for x in flat(Mq)), int(sn)), func))
             C = cores[s]
             if C is None:
@@ -477,7 +503,7 @@ def run_job(job):
     kmax = 2 * n + 1
     cores = oracle_cores(base, A, list(range(1, kmax + 1)))
     true_c = [max([0] + [k for k in range(1, kmax + 1) if cores[k] >> v & 1]) for v in range(n)]
-    if max(true_c) >= 2:
+    if true_c and max(true_c) >= 2:
         out['nontrivial'].append(digest([func, A]))
     if cor != true_c:
         viol(func, 'coreness-max', cor, true_c)
@@ -598,6 +624,19 @@ def gen_jobs(rs, tier):
         if len(grid) > 24:
             grid = grid[:2] + [grid[i] for i in sorted((2 + rs.choice(len(grid) - 2, size=22, replace=False)).tolist())]
         jobs.append({'kind': 'wu', 'A': [[str(x) for x in r] for r in A], 'ks': [str(s) for s in grid]})
+    # --- n = 0 (bct returns the empty matrix / empty vectors and size 0; the model mirrors it)
+    jobs += [{'kind': 'bu', 'A': [], 'ks': [0, 1, 2]}, {'kind': 'bd', 'A': [], 'ks': [0, 1, 3]}, {'kind': 'wu', 'A': [], 'ks': ['-1/2', '0', '1']},
+             {'kind': 'c-bu', 'A': [], 'ks': []}, {'kind': 'c-bd', 'A': [], 'ks': []}]
+    # --- score_wu, integer weights 1..3 in integer / float32 storage and other layouts (every job carries a representation)
+    reps_int = ['int64', 'int32', 'uint8', 'float32', 'fortran', 'tview', 'strided']
+    for q in range(600 if th else 70):
+        n = int(rs.randint(3, 8))
+        A = rand_und(rs, n, rs.choice([.4, .6, .9]), ('1', '2', '3') if q % 5 else ('1',))
+        grid = s_grid([[Fr(x) for x in r] for r in A])
+        if len(grid) > 16:
+            grid = grid[:2] + [grid[i] for i in sorted((2 + rs.choice(len(grid) - 2, size=14, replace=False)).tolist())]
+        rep = reps_int[q % len(reps_int)] if q % 5 else 'bool'          # 0/1 weights: also as a bool matrix
+        jobs.append({'kind': 'wu', 'A': [[str(x) for x in r] for r in A], 'ks': [str(s) for s in grid], 'rep': rep})
     # --- score_wu, decimal weights k/10 (floats): Python oracle only, s on the float strengths of every node subset and their neighbours
     dec = [k / 10 for k in range(1, 10)]
     for _ in range(1500 if th else 110):
@@ -620,11 +659,11 @@ def gen_jobs(rs, tier):
         n = int(rs.randint(5, 9))
         jobs.append({'kind': 'c-bd', 'A': rand_dir(rs, n, rs.choice([.15, .3, .5])), 'ks': []})
     # --- representation axis: the same values as int64 / bool / float32 matrices, Fortran order, transposed and strided views
-    reps_bin = ['int64', 'bool', 'float32', 'fortran', 'tview', 'strided']
+    reps_bin = ['int64', 'int32', 'uint8', 'bool', 'float32', 'fortran', 'tview', 'strided']
     reps_wu = ['fortran', 'tview', 'strided', 'float32']
     extra = []
     for j in jobs:
-        if j.get('malformed') or j['kind'] == 'wu-dec' or rs.rand() > (.25 if th else .12):
+        if j.get('malformed') or j.get('rep') or j['kind'] in ('wu-dec', 'probe') or rs.rand() > (.25 if th else .12):
             continue
         if j['kind'] == 'wu':
             rep = reps_wu[rs.randint(len(reps_wu))]
@@ -687,6 +726,8 @@ def main():
             ck.count('rep:' + job['rep'])
         if r.get('dec_ties'):
             ck.count('decimal_exact_ties_after_peeling', r['dec_ties'])
+        if r.get('dec_ulp'):
+            ck.count('decimal_cases_where_exact_and_float_semantics_differ', r['dec_ulp'])
         ck.count('n=%d' % r['n'])
         for s, c in r['status'].items():
             ck.count('status:' + s, c)
